@@ -20,7 +20,7 @@ OK, NOPATH, RANGE_ERR = 'Success', 'Path destination unknown', 'Unknown error 25
 def start_simulator():
     s = socket.socket(); s.bind(('127.0.0.1', 0)); port = s.getsockname()[1]; s.close()
     p = subprocess.Popen([sys.executable, '-m', 'cpppo.server.enip', '--no-udp', '-a', '127.0.0.1:%d' % port] +
-                         ['%s=%s[%d]' % (k, v[0], v[1]) for k, v in TAGS.items()] + ['X=REAL', 'Y=LREAL', 'Z=DINT', 'BIG=DINT[16600]', 'E1=DINT[4]', 'E2=INT[4]', 'E3=REAL[4]', 'E4=DINT[4]', 'E5=SINT[4]', 'E6=LINT[4]'],      # 13 tags without an address: the 10th and later get two-digit attribute numbers
+                         ['%s=%s[%d]' % (k, v[0], v[1]) for k, v in TAGS.items()] + ['X=REAL', 'Y=LREAL', 'Z=DINT', 'BIG=DINT[16600]', 'E1=DINT[4]', 'E2=INT[4]', 'E3=REAL[4]', 'E4=DINT[4]', 'E5=SINT[4]', 'E6=LINT[4]', 'HUGE=SINT[40000]'],      # 13 tags without an address: the 10th and later get two-digit attribute numbers
                          stdout=subprocess.DEVNULL, stderr=subprocess.DEVNULL, cwd='/')
     for _ in range(150):
         try:
@@ -141,6 +141,17 @@ def pylogix_scalars_and_big(port, rng, spec=None):
             r = comm.Read('BIG[16400]', 200)
             if r.Status != OK or list(r.Value or []) != big[16400:]:
                 problems.append(dict(operation='Read BIG[16400] x 200', got=repr((r.Status, list(r.Value or [])[:5])), expected=repr((OK, big[16400:16405]))))
+            # element indices that need all 16 bits of the element segment
+            huge = {}
+            for i, v in ((32767, 7), (32768, -8), (32769, 9), (39999, -10), (255, 11), (256, 12)):
+                r = comm.Write('HUGE[%d]' % i, v); huge[i] = v
+                if r.Status != OK:
+                    problems.append(dict(operation='Write HUGE[%d] = %d (SINT[40000])' % (i, v), got=r.Status, expected=OK))
+            for i, cnt in ((32767, 3), (39999, 1), (255, 2), (32768, 300)):
+                r = comm.Read('HUGE[%d]' % i, cnt)
+                exp = [huge.get(i + k, 0) for k in range(cnt)]
+                if (list(r.Value or []) if cnt > 1 else [r.Value], r.Status) != (exp, OK):
+                    problems.append(dict(operation='Read HUGE[%d] x %d' % (i, cnt), got=repr((r.Status, (list(r.Value or [])[:4] if cnt > 1 else r.Value))), expected=repr((OK, exp[:4]))))
         except Exception as e:
             problems.append(dict(operation='scalars / big array', problem='the client raised %s: %s' % (type(e).__name__, str(e)[:120])))
     return problems
